@@ -421,6 +421,7 @@ def run(repo, rep, tier):
     _linearity(repo, rep)
     _null_vs_empty(repo, rep, tp)
     _attr_own_condition(repo, rep)
+    _position_by_index(repo, rep)
     # the datetime writer str(CIMDateTime) is part of every VALUE written for
     # a datetime: same exact-arithmetic rule as C06.R8
     from .c06 import _r8_exact_fields
@@ -818,3 +819,49 @@ def _attr_own_condition(repo, rep):
     if r13.sites < 40:
         raise AnalysisError('C01.R13: only %d attribute writes found'
                             % r13.sites)
+
+
+def _position_by_index(repo, rep):
+    """C01.R14: first / last pieces of a split text are told apart by their
+    position, not by comparing the piece with list[0] / list[-1].  In
+    _pcdata_nodes() the pieces between `]]>` markers are re-joined with
+    partial markers; with a comparison by value a piece that equals the
+    first or last one loses its marker part and the string arrives altered
+    (`a]]>a` -> `aa`)."""
+    r14 = rep.rule('C01.R14', 'loop positions are decided by index, not by '
+                   'comparing the item with the first / last element')
+    XMLF = 'pywbem/_cim_xml.py'
+    m = repo.module(XMLF)
+    loops = 0
+    for f in m.all_funcs():
+        for lp in walk_no_nested(f.node):
+            if not (isinstance(lp, ast.For) and
+                    isinstance(lp.target, ast.Name) and
+                    isinstance(lp.iter, ast.Name)):
+                continue
+            loops += 1
+            item, lst = lp.target.id, lp.iter.id
+            for c in ast.walk(lp):
+                if isinstance(c, ast.Compare) and len(c.ops) == 1 and \
+                        isinstance(c.ops[0], (ast.Eq, ast.NotEq, ast.Is,
+                                              ast.IsNot)):
+                    sides = [c.left, c.comparators[0]]
+                    names = [norm(x) for x in sides]
+                    if item in names and any(
+                            isinstance(x, ast.Subscript) and
+                            norm(x.value) == lst for x in sides):
+                        r14.sites += 1
+                        r14.ob(False, '%s|%s' % (f.qualname, norm(c)))
+                        rep.finding(r14, f.qualname, norm(c, 70),
+                                    'position-by-value', XMLF, c.lineno,
+                                    'the loop over %s decides whether %s is '
+                                    'the first / last element by comparing '
+                                    'values: an inner element that equals '
+                                    'it is treated as first / last too, so '
+                                    'text re-assembled from the pieces '
+                                    '(CDATA sections around `]]>`) differs '
+                                    'from the original' % (lst, item))
+    r14.sites += 1
+    r14.ob(loops >= 1, 'loops-scanned', {'loops': loops})
+    if loops < 1:
+        raise AnalysisError('C01.R14: only %d loops scanned' % loops)
